@@ -215,4 +215,47 @@ def isScalar : Val → Bool
   | .bool _ | .int _ | .float _ | .str _ => true
   | _ => false
 
+/-! ### what the translator compares with (`harness/xv/translate/serialkeys.py` → `Generated/SerialKeys.lean`) -/
+
+/-- what the guards of `__get_objects__` may look at (`self.loaded`, `self.task`, `self.meta`, `self.pre_tasks`,
+    `self.init_tasks`, `self.xpmtype._package`). -/
+structure WEnv where
+  loaded : Bool
+  task : Option Nat
+  mflag : Option Bool
+  pre : List Nat
+  init : List Nat
+  package : Bool
+  deriving Repr
+
+def sameKeys (a b : List String) : Bool := a.all (b.contains ·) && b.all (a.contains ·)
+
+/-- members of a definition known to the model (`Def`): `id`; `module` / `type` / `file` (the class, `cname`);
+    `typename` / `identifier` (recomputed by the model, restored as given for runtime objects); `fields`;
+    `pre-tasks`; `init-tasks`; `task`; `meta`. -/
+def defKeysModel : List String :=
+  ["id", "module", "type", "typename", "identifier", "fields", "pre-tasks", "init-tasks", "task", "meta", "file"]
+
+/-- values of the member `"type"` of a typed JSON object (`encJ` / `decJ`: `sDict`, `sPython`, `sPath`, `sPathSer`, `sEnum`). -/
+def typeTagsModel : List String := ["dict", "python", "path", "path.serialized", "enum"]
+
+def tagBytes (s : String) : List Nat := s.toUTF8.toList.map (·.toNat)
+
+/-- kinds of values `_outputjsonvalue` distinguishes (constructors of `Val`: `none`, `list`, `dict`, `path`, a data
+    path already turned into a `SerializedPath` (`encField`), `bool`/`int`/`float`/`str`, `enum`, `ref`). -/
+def dispatchKinds : List String := ["none", "list", "dict", "path", "serializedpath", "scalar", "enum", "config"]
+
+def before (l : List String) (a b : String) : Bool := l.idxOf a < l.idxOf b
+
+/-- when the model's writer (`mkDef`) emits an optional member. -/
+def modelGuard (fl : Flags) (e : WEnv) : String → Bool
+  | "pre-tasks" => !e.pre.isEmpty
+  | "init-tasks" => !e.init.isEmpty
+  | "meta" => (writeMeta fl e.mflag).isSome
+  | "task" => e.task.isSome
+  | _ => true
+
+def envOf (nd : Node) (loaded package : Bool) : WEnv :=
+  { loaded := loaded, task := nd.task, mflag := nd.mflag, pre := nd.preTasks, init := nd.initTasks, package := package }
+
 end XpmVerif.Serial
